@@ -528,8 +528,18 @@ class Parser:
 
     #   generate string from token sequence, with macro expansion
     #
+    #   - this expansion only inspects the tokens, they may be expanded
+    #     again for the output (e.g., argument of \section):
+    #     text separated on the way (\footnote etc.) is dropped, and
+    #     the rotation of maths replacements is wound back
+    #
     def get_text_expanded(self, toks):
+        extracted = len(self.extracted) if hasattr(self, 'extracted') else 0
+        repls = self.parms.get_repl_rotation()
         toks = self.expand_sequence(scanner.Buffer(toks.copy()))
+        self.parms.set_repl_rotation(repls)
+        if hasattr(self, 'extracted'):
+            del self.extracted[extracted:]
         return self.get_text_direct(toks)
 
     #   remove all blank text lines, which contain at least one ActionToken
